@@ -289,6 +289,14 @@ def check_c19(tier, seed):
     n_model = len(calls.calls)
     for k in range(400 if quick else 6000):
         uris = [rand_uri(rng) for _ in range(rng.randrange(1, 9))]
+        if k % 2:
+            # clustered: several prefixes with 1..3 distinct identifiers each, so that a cutoff keeps some and drops others
+            uris = []
+            for root in rng.sample(["http://aaa.example/", "http://bbb.example/obo/BB_", "http://ccc.example/x#", "http://ddd.example/obo/DD_", "https://E.org/"],
+                                   rng.randrange(2, 5)):
+                for t in rng.sample(["1", "22", "a", "é1", "Z9", "007"], rng.randrange(1, 4)):
+                    uris.append(root + t)
+            rng.shuffle(uris)
         if rng.random() < 0.5:
             uris += [rng.choice(uris) for _ in range(rng.randrange(1, 4))]
         delims = rng.choice([None, None, ["/"], ["_", "/"], ["#", "/", "_", "-"], ["://"], ["/", "#"], ["::", "/"], ["--", "::", "_"], ["/", "a"], ["id=", "="]])
